@@ -103,6 +103,20 @@ Theorem C04_ph_mean_exact_reals : forall (p : @ph_params NumR) xs, xs <> [] ->
   p_mean (ph_feed p ph_e0 0 xs) = (sumR xs / IZR (Z.of_nat (length xs)))%R.
 Proof. exact ph_mean_exact. Qed.
 
+(** exact arithmetic (reals): numpy's pairwise summation is the plain sum, so CUSUM's estimates are the
+    arithmetic mean and the population standard deviation of the observations they are taken from *)
+From MV Require Import Pairwise_Exact.
+Theorem C04_numpy_mean_std_exact_reals : forall l : list R,
+  @np_mean NumR l = (sumR l / IZR (Z.of_nat (length l)))%R /\
+  @np_std NumR l = sqrt (sumR (map (fun x => ((x - sumR l / IZR (Z.of_nat (length l))) * (x - sumR l / IZR (Z.of_nat (length l))))%R) l)
+                         / IZR (Z.of_nat (length l))).
+Proof. intros l. exact (conj (np_mean_exact l) (np_std_exact l)). Qed.
+
+Theorem C04_cusum_estimates_exact_reals : forall (p : @cusum_params NumR) (e : @cusum_e NumR),
+  let w := last_burn_in (c_burn_in p) (c_stream e) in
+  c_target (cusum_reset p e) = Some (sumR w / IZR (Z.of_nat (length w)))%R.
+Proof. intros p e w. unfold cusum_reset. cbn [c_target]. fold w. rewrite np_mean_exact. reflexivity. Qed.
+
 Print Assumptions C04_ph_test.
 Print Assumptions C04_ph_local.
 Print Assumptions C04_cusum_test.
@@ -111,3 +125,5 @@ Print Assumptions C04_cusum_reset.
 Print Assumptions C04_cusum_clean_slate.
 Print Assumptions C04_cusum_drift_after_burn_in.
 Print Assumptions C04_ph_mean_exact_reals.
+Print Assumptions C04_numpy_mean_std_exact_reals.
+Print Assumptions C04_cusum_estimates_exact_reals.
